@@ -7,6 +7,7 @@ package main
 import (
 	"bufio"
 	"bytes"
+	"crypto/ed25519"
 	"crypto/sha1"
 	"encoding/json"
 	"fmt"
@@ -82,6 +83,16 @@ func roundPublic(n *vnode, round string) string {
 	return fmt.Sprintf("state=%s thr=%d/%d poly=%x parts=[%s]", d.State, d.Payload.Threshold, thr, d.Payload.DKGProposalPayload.PubPolyBz, strings.Join(parts, ","))
 }
 
+// genuinelySigned: the message carries a signature of its sender's key
+func genuinelySigned(c *cluster, m storage.Message) bool {
+	for _, nd := range c.nodes {
+		if nd.name == m.SenderAddr {
+			return ed25519.Verify(nd.kp.Pub, m.Data, m.Signature)
+		}
+	}
+	return false
+}
+
 func (r *reinitRun) scenario(outDir string, n, t int, interleave, junk, adapt, blankIDs bool) {
 	tag := fmt.Sprintf("(n=%d,t=%d interleaved=%v junk=%v adapt=%v blank-ids=%v)", n, t, interleave, junk, adapt, blankIDs)
 	dir, _ := os.MkdirTemp(outDir, "reinit")
@@ -117,12 +128,31 @@ func (r *reinitRun) scenario(outDir string, n, t int, interleave, junk, adapt, b
 		// announcements (after the point where a 0.1.4 adaptation puts its unsigned self-confirmations): an announcement of a
 		// made-up key in the name of participant 1 with a signature that does not verify. The original nodes reject it; a
 		// re-initialisation must reject it too, whatever was replayed before it
-		lateForged := false
+		lateForged, dealForged := false, false
 		for rd := 0; rd < 80; rd++ {
 			moved := 0
 			for _, i := range rngPump.Perm(n) {
 				evs, _ := a.pollOnce(a.nodes[i], 0)
 				moved += len(evs)
+			}
+			if !dealForged {
+				// … and one in the deals phase: a deal confirmation a participant "sends to itself" (what the 0.1.4 adaptation
+				// synthesises for logs that lack them) with a signature that does not verify. Rejected by everybody then, it must
+				// not count as that participant's self-confirmation now
+				all := true
+				for _, nd := range a.nodes {
+					if a.roundState(nd, round) != "state_dkg_deals_await_confirmations" {
+						all = false
+					}
+				}
+				if all {
+					dealForged = true
+					r.st.LateForged++
+					who := a.nodes[1%n]
+					forged, _ := json.Marshal(map[string]interface{}{"ParticipantId": 1 % n, "Deal": []byte("self-confirm"), "CreatedAt": time.Now().UTC().Format(time.RFC3339Nano)})
+					a.nodes[0].stg.Send(storage.Message{ID: "forged-3", DkgRoundID: round, Event: "event_dkg_deal_confirm_received", Data: forged,
+						Signature: bytes.Repeat([]byte{5}, 64), SenderAddr: who.name, RecipientAddr: who.name})
+				}
 			}
 			if !lateForged {
 				all := true
@@ -187,8 +217,8 @@ func (r *reinitRun) scenario(outDir string, n, t int, interleave, junk, adapt, b
 		// a 0.1.4 log: no self-confirmation deals; the adaptation has to put them back
 		var stripped []storage.Message
 		for _, m := range dump {
-			if m.Event == "event_dkg_deal_confirm_received" && m.RecipientAddr == m.SenderAddr {
-				continue
+			if m.Event == "event_dkg_deal_confirm_received" && m.RecipientAddr == m.SenderAddr && genuinelySigned(a, m) {
+				continue // (the forged one stays: it sat on the board of the 0.1.4 ceremony like any other junk)
 			}
 			stripped = append(stripped, m)
 		}
